@@ -47,7 +47,17 @@ Definition all_kinds : list kind := [KNode; KComponent; KService; KInterface; KL
 Definition dict_tables_ok (k : kind) : bool :=
   forallb (fun te => negb (mem (snd (fst te)) child_keys) && negb (String.eqb (snd (fst te)) node_id_prop))
           (to_table k)
+  && forallb (fun fe => negb (String.eqb (snd (fst fe)) node_id_prop)) (from_table k)
   && list_eqb String.eqb child_keys [k_components; k_services; k_interfaces].
 
 Definition all_tables_ok : bool :=
   forallb (fun k => tables_symmetric k && dict_tables_ok k && absent_ok k) all_kinds.
+
+(* diagnosis: the attributes / keywords / graph properties whose table entries are not inverse (empty
+   exactly when the entry-wise part of tables_symmetric holds) *)
+Definition bad_entries (k : kind) : list string :=
+  filter (fun x => negb (entry_ok k x)) (data_attrs k)
+  ++ map (fun te => fst (fst te)) (filter (fun te => negb (mem (fst (fst te)) (data_attrs k)) || negb (partner_ok k te)) (to_table k))
+  ++ map (fun fe => fst (fst fe)) (filter (fun fe => match target k fe with
+                                                     | Some x => negb (mem x (data_attrs k))
+                                                     | None => true end) (from_table k)).
